@@ -110,10 +110,6 @@ Example C08_remove_needs_all :
   fired s 252 (p_remove (mk_of_list [0; 1]) (mk_of_list [])) = [0; 1].
 Proof. vm_compute. split; reflexivity. Qed.
 
-Print Assumptions C08_dispatch_entity_events.
-Print Assumptions C08_dispatch_entity_relation_events.
-Print Assumptions C08_dispatch_add_events.
-Print Assumptions C08_dispatch_remove_events.
-Print Assumptions C08_dispatch_set_relation_custom_events.
-Print Assumptions C08_reset_clears_every_event_type.
-Print Assumptions C08_remove_predicate_documented.
+(** One traversal of the dependency graph for all theorems of this file. *)
+Definition C08_all := (C08_dispatch_entity_events, C08_dispatch_entity_relation_events, C08_dispatch_add_events, C08_dispatch_remove_events, C08_dispatch_set_relation_custom_events, C08_reset_clears_every_event_type, C08_remove_predicate_documented).
+Print Assumptions C08_all.
